@@ -22,7 +22,6 @@ Theorem C12_transparent :
     hdrdec (enc_header (roots_opt nilroots roots) 1) = Some (roots, 1) ->
     (exists r, hdrdec pragma_body = Some (r, 2)) ->
     blen (enc_header (roots_opt nilroots roots) 1) <= w_maxh o ->
-    blen (enc_header (roots_opt nilroots roots) 1) <= default_maxh ->
     w_maxcid o <= max_digest_alloc ->
     match k with KStorage false => negb (w_v1 o) | _ => false end = false ->
     forall (segs : list (list block * cut)) (last : list block) (s0 : wstate),
@@ -41,7 +40,6 @@ Theorem C12_transparent_canon :
          (segs : list (list block * cut)) (last : list block) (s0 : wstate),
     roots_ok roots ->
     blen (enc_header (roots_opt nilroots roots) 1) <= w_maxh o ->
-    blen (enc_header (roots_opt nilroots roots) 1) <= default_maxh ->
     w_maxcid o <= max_digest_alloc ->
     match k with KStorage false => negb (w_v1 o) | _ => false end = false ->
     51 + w_dpad o + w_ipad o + ld_size (blen (enc_header (roots_opt nilroots roots) 1))
@@ -71,7 +69,6 @@ Theorem C12_reject_roots :
     hdrdec (enc_header (roots_opt nilroots roots) 1) = Some (roots, 1) ->
     (exists r, hdrdec pragma_body = Some (r, 2)) ->
     blen (enc_header (roots_opt nilroots roots) 1) <= w_maxh o ->
-    blen (enc_header (roots_opt nilroots roots) 1) <= default_maxh ->
     w_maxcid o <= max_digest_alloc ->
     match k with KStorage false => negb (w_v1 o) | _ => false end = false ->
     forall (segs : list (list (bytes * bytes) * cut)) (last : list (bytes * bytes)) (c : cut)
@@ -94,7 +91,6 @@ Theorem C12_reject_version :
     hdrdec (enc_header (roots_opt nilroots roots) 1) = Some (roots, 1) ->
     (exists r, hdrdec pragma_body = Some (r, 2)) ->
     blen (enc_header (roots_opt nilroots roots) 1) <= w_maxh o ->
-    blen (enc_header (roots_opt nilroots roots) 1) <= default_maxh ->
     w_maxcid o <= max_digest_alloc ->
     match k with KStorage false => negb (w_v1 o) | _ => false end = false ->
     forall (segs : list (list (bytes * bytes) * cut)) (last : list (bytes * bytes)) (c : cut)
@@ -118,7 +114,6 @@ Theorem C12_reject_padding_partial :
     hdrdec (enc_header (roots_opt nilroots roots) 1) = Some (roots, 1) ->
     (exists r, hdrdec pragma_body = Some (r, 2)) ->
     blen (enc_header (roots_opt nilroots roots) 1) <= w_maxh o ->
-    blen (enc_header (roots_opt nilroots roots) 1) <= default_maxh ->
     w_maxcid o <= max_digest_alloc ->
     match k with KStorage false => negb (w_v1 o) | _ => false end = false ->
     forall (segs : list (list (bytes * bytes) * cut)) (last : list (bytes * bytes)) (c : cut)
@@ -146,7 +141,6 @@ Theorem C12_reject_padding_refuted :
     dec_header_canon (enc_header (roots_opt nilroots roots) 1) = Some (roots, 1) /\
     (exists r, dec_header_canon pragma_body = Some (r, 2)) /\
     blen (enc_header (roots_opt nilroots roots) 1) <= w_maxh o /\
-    blen (enc_header (roots_opt nilroots roots) 1) <= default_maxh /\
     w_maxcid o <= max_digest_alloc /\
     open_new k o nilroots roots [] = Ok s0 /\
     reopen dec_header_canon k (with_dpad o p') nilroots roots
